@@ -411,6 +411,12 @@ func (r *replayer) dispatch(line []byte) error {
 			return err
 		}
 		r.histCase(c)
+	case "C13":
+		var c ErrCase
+		if err := json.Unmarshal(line, &c); err != nil {
+			return err
+		}
+		r.errCase(c)
 	case "C12":
 		var c LexCase
 		if err := json.Unmarshal(line, &c); err != nil {
